@@ -29,7 +29,7 @@ cfg("MCAmlNsXFlowFull", GEN, "PreBody", "Fresh2", 6, 1, 1, [], [], [], ["if", "e
 # ---- design model of the operand collection (MCAmlBodyX): BodyRefines on straight-line bodies; design mutants and the open trigger must be rejected
 BODY = ["call", "callop", "calloplast", "store", "notify", "sync", "match"]
 cfg("MCAmlBodyXQuick", ["BodyRefines"], "PreBody", "Fresh2", 2, 1, 1, [], [], [], ["call", "calloplast", "store", "notify"], 2, emit=False)
-cfg("MCAmlBodyXFull", ["BodyRefines"], "PreBody", "Fresh2", 3, 1, 1, [], ["abs"], [], ["call", "calloplast", "store", "notify", "sync", "match"], 3, emit=False)
+cfg("MCAmlBodyXFull", ["BodyRefines"], "PreBody", "Fresh2", 3, 1, 1, [], [], [], ["call", "calloplast", "store"], 3, emit=False)
 for b in ["ConnectBeforeResolve", "NoParentSiblings", "ForwardOrder"]:
     cfg("MCAmlBodyXBug_" + b, ["BodyRefines"], "PreBody", "Fresh2", 2, 1, 1, [], [], [], ["call", "calloplast", "store"], 2, emit=False, bug=b)
 # the pinned design on the trigger construct of D5 (operator term in a non-final argument position): Keep_Excluded
